@@ -974,9 +974,14 @@ def _contexts_active_by_referents(frame: types.FrameType, origin: Any) -> List[C
         root = origin
 
     for referent in gc.get_referents(root):
-        if isinstance(referent, types.MethodType):
-            name = referent.__func__.__name__
-        elif isinstance(referent, types.BuiltinMethodType):
+        # The referents include every local variable of the frame: any
+        # object at all. Go by their actual type, so as not to run code of
+        # theirs (isinstance() would consult a __class__ property, and raise
+        # for a dead weakref proxy).
+        referent_type = type(referent)
+        if issubclass(referent_type, types.MethodType):
+            name = getattr(referent.__func__, "__name__", None)
+        elif issubclass(referent_type, types.BuiltinMethodType):
             # Context managers implemented in C (threading.Lock, io objects,
             # memoryview, ...) have builtin methods rather than bound methods
             name = referent.__name__
